@@ -201,6 +201,12 @@ def catalogue():
         t = wn.options.time
         t.duration = 27 * 3600; t.hydraulic_timestep = 1800; t.quality_timestep = 300; t.rule_timestep = 600; t.pattern_timestep = 7200
         t.pattern_start = 3600; t.report_timestep = 3600; t.report_start = 7200; t.start_clocktime = 6 * 3600 + 1800; t.statistic = "AVERAGED"
+    @dev("o_time_odd")
+    def _(wn):
+        # legal but unusual relations between the time options: hydraulic step below the quality and report steps' usual
+        # order, rule step above the hydraulic step, pattern step and report start beyond the duration
+        t = wn.options.time
+        t.hydraulic_timestep = 60; t.rule_timestep = 7200; t.report_timestep = 30; t.pattern_timestep = 100000; t.report_start = 30000
     @dev("o_clock_pm", "clock")
     def _(wn): wn.options.time.start_clocktime = 13 * 3600 + 900
     @dev("o_clock_noon", "clock")
